@@ -103,7 +103,7 @@ class Check:
         # allocation: the sanitizer's / libFuzzer's own allocation caps (2 GB) are lower than that limit, so their
         # report for such a request is not a verdict on the library.  Recorded as an observation.
         m_ = re.search(r"requested allocation size 0x([0-9a-fA-F]+)", text or "") or re.search(r"malloc\((\d+)\)", text or "")
-        if m_ and "colvar_grid" in key and "setup" in key:
+        if m_ and "colvar_grid" in key:
             size_ = int(m_.group(1), 16) if m_.group(0).startswith("requested") else int(m_.group(1))
             if size_ <= 8 * 10 ** 9 + 4096:
                 self.bump("bounded_grid_allocations_reported_by_sanitizer_caps")
